@@ -71,11 +71,25 @@ def roundtrip(sql: str, dialect: str, opts: dict):
     return ("ok", s1 != sql)
 
 
+OPERATOR_FAMILIES = ("un.", "bin.", "pred.", "paren", "case.", "cast.dcolon", "acc.", "fn.abs", "fn.coalesce", "lit.interval", "agg.sum",
+                     "fn.at_time_zone", "lit.neg")
+
+
+def operator_expressions(dialect, k):
+    """Expression-level derivations (SELECT <e> FROM t) built only from the operator / predicate families - the part
+    the precedence ladder and its mirror in the generator look at."""
+    out = []
+    for cost, e, tags in statements(dialect, k, start="expr"):
+        if cost == k and all(t.startswith(OPERATOR_FAMILIES) for t in tags):
+            out.append((cost, f"SELECT {e} FROM t", tags))
+    return out
+
+
 def worker_a(shard, nshards, plan):
     logging.disable(logging.CRITICAL)
     res = {"evaluations": 0, "parsed": 0, "changed": set(), "violations": {}, "samples": [], "unparsed": 0}
     for dialect, k, optnames in plan:
-        items = statements(dialect, k)
+        items = statements(dialect, k) if k > 0 else operator_expressions(dialect, -k)
         for i, (cost, sql, tags) in enumerate(items):
             if i % nshards != shard:
                 continue
@@ -220,8 +234,10 @@ def run(ctx: Ctx) -> None:
     for d in dialects:
         plan.append((d, 1, tuple(OPTSETS)))
     if quick:
-        for d in K2_QUICK[:1]:
-            plan.append((d, 2, ("default",)))
+        # every pair of operator-family constructs (k = 2 at expression level) in the base dialect and four more;
+        # the thorough tier runs the complete k = 2 statement space in all dialects
+        for d in ("", "duckdb", "postgres", "mysql", "tsql"):
+            plan.append((d, -2, ("default",)))
     else:
         for d in dialects:
             plan.append((d, 2, ("default", "pretty") if d in K2_QUICK else ("default",)))
@@ -244,7 +260,7 @@ def run(ctx: Ctx) -> None:
             "evaluations": res["evaluations"] + resb["evaluations"],
             "distinct_nontrivial": len(res["changed"]) + resb["nontrivial"],
             "rule": "E1: every G_core derivation with cost <= k (k=1: all dialects x 4 option sets; k=2: "
-                    + ("base dialect" if quick else "all dialects") + ") round-tripped parse->generate->parse->generate; "
+                    + ("every pair of operator / predicate / unary / cast / CASE constructs at expression level in the base dialect and 4 more" if quick else "all dialects") + ") round-tripped parse->generate->parse->generate; "
                     "non-trivial = distinct (dialect, statement) whose generated text differs from the input (the generator "
                     "normalised something); plus every time-format string of <= n atoms per dialect mapping checked against a "
                     "greedy longest-match reference (non-trivial = format_time changed the string).",
